@@ -96,11 +96,32 @@ def _peel(e):
     return e
 
 
+_CUR_CRATE = [None]
+
+
 def _int_lit(e):
+    """the value of an integer literal or of a constant expression over literals and integer `const` items"""
     e = _peel(e)
     while e and e.get("k") == "Cast":
         e = _peel(e.get("e"))
-    return e.get("v") if e and e.get("k") == "Lit" and isinstance(e.get("v"), int) and not isinstance(e.get("v"), bool) else None
+    if e is None:
+        return None
+    if e.get("k") == "Lit" and isinstance(e.get("v"), int) and not isinstance(e.get("v"), bool):
+        return e.get("v")
+    if e.get("k") == "Path" and e.get("res") == "def" and "Const" in (e.get("dk") or "") and "Ctor" not in (e.get("dk") or "") and _CUR_CRATE[0] is not None:
+        import ceval, facts
+        try:
+            v = ceval.Eval(_CUR_CRATE[0], budget=200_000).const(facts.norm_path(e.get("def")))
+        except Exception:
+            return None
+        return v if isinstance(v, int) and not isinstance(v, bool) else None
+    if e.get("k") == "Binary" and e.get("op") in ("+", "-", "*"):
+        l_, r_ = _int_lit(e.get("l")), _int_lit(e.get("r"))
+        if l_ is None or r_ is None:
+            return None
+        v = l_ + r_ if e["op"] == "+" else (l_ - r_ if e["op"] == "-" else l_ * r_)
+        return v if 0 <= v < 2 ** 63 else None
+    return None
 
 
 def slice_len(b, at, e, depth=0):
@@ -117,6 +138,12 @@ def slice_len(b, at, e, depth=0):
         idx = e.get("idx") or {}
         ty = idx.get("ty") or ""
         flds = {f_.get("name"): f_.get("e") for f_ in (idx.get("fields") or [])}
+        # `x[a..b]` / `x[..b]` has length b - a / b whenever it is evaluated at all (the indexing itself is a separate,
+        # separately audited site)
+        if ty.endswith("Range<usize>") and _int_lit(flds.get("start")) is not None and _int_lit(flds.get("end")) is not None and _int_lit(flds.get("end")) >= _int_lit(flds.get("start")):
+            return _int_lit(flds.get("end")) - _int_lit(flds.get("start"))
+        if ty.endswith("RangeTo<usize>") and _int_lit(flds.get("end")) is not None:
+            return _int_lit(flds.get("end"))
         base = slice_len(b, at, e.get("base"), depth + 1)
         if ty.endswith("RangeTo<usize>") and _int_lit(flds.get("end")) is not None and base is not None and _int_lit(flds.get("end")) <= base:
             return _int_lit(flds.get("end"))
@@ -190,6 +217,51 @@ def slice_len(b, at, e, depth=0):
     return None
 
 
+def _body_hir(crate, bn):
+    b = crate.bodies.get(bn) or {}
+    if "hir" not in b and "::{closure" in bn:
+        b = crate.bodies.get(bn.split("::{closure")[0]) or {}
+    return b.get("hir")
+
+
+def len_plus_len(crate, bn):
+    """every `+` of the body whose type is usize adds buffer lengths and small literals only"""
+    hir = _body_hir(crate, bn)
+    if hir is None:
+        return False
+    def is_len(e):
+        e = _peel(e)
+        if e is None:
+            return False
+        if e.get("k") == "MethodCall" and e.get("name") == "len" and (e.get("callee") or "").endswith(("<impl [T]>::len", "Vec::len", "String::len", "<impl str>::len")):
+            return True
+        if _int_lit(e) is not None and 0 <= _int_lit(e) <= 4096:
+            return True
+        if e.get("k") == "Binary" and e.get("op") == "+":
+            return is_len(e.get("l")) and is_len(e.get("r"))
+        return False
+    adds = [n for n in common.hir_walk(hir) if n.get("k") == "Binary" and n.get("op") == "+" and (n.get("ty") or "") == "usize"]
+    return bool(adds) and all(is_len(n) for n in adds)
+
+
+def literal_array_index(crate, bn):
+    """every Index expression of the body with a literal index addresses a fixed-size array within its length, and there
+    is no other kind of (non-range) index expression"""
+    import re as _re
+    hir = _body_hir(crate, bn)
+    if hir is None:
+        return False
+    idxs = [n for n in common.hir_walk(hir) if n.get("k") == "Index" and not ((n.get("idx") or {}).get("ty") or "").startswith("std::ops::Range")]
+    if not idxs:
+        return False
+    for n in idxs:
+        i_ = _int_lit(n.get("idx"))
+        m = _re.search(r"\[[^;\[\]]+; (\d+)\]$", ((n.get("base") or {}).get("ty") or "").lstrip("&").replace("mut ", ""))
+        if i_ is None or not m or not (0 <= i_ < int(m.group(1))):
+            return False
+    return True
+
+
 def std_position_ok(crate, body_name, callee, term):
     """A position-taking std call that cannot panic by construction:
        chunks* / windows / step_by with a non-zero literal size; Vec::insert(0, _); a position that is the literal 0 for
@@ -206,10 +278,8 @@ def std_position_ok(crate, body_name, callee, term):
     n = nodes[0]
     args = n.get("args") or []
 
-    def lit(e):
-        while e and e.get("k") in ("Cast", "AddrOf"):
-            e = e.get("e")
-        return e.get("v") if e and e.get("k") == "Lit" and isinstance(e.get("v"), int) else None
+    _CUR_CRATE[0] = crate
+    lit = _int_lit
     if last in ("chunks", "chunks_exact", "chunks_mut", "chunks_exact_mut", "rchunks", "windows", "step_by"):
         return bool(args) and (lit(args[0]) or 0) > 0
     if last in ("insert",) and "Vec" in callee:
@@ -304,6 +374,7 @@ def sites(crate):
 
 
 def audit(cfg, crate, cname, rep):
+    _CUR_CRATE[0] = crate
     by = {}
     by_body = {}
     G = None
@@ -312,7 +383,16 @@ def audit(cfg, crate, cname, rep):
             # a helper introduced by a later change: its sites belong to the (single) audited function that calls it
             if G is None:
                 G, _ = call_graph(crate)
-            owner = attributed_owner(crate, G, owner)
+            o1 = attributed_owner(crate, G, owner)
+            if o1 == owner and o1 not in known_fns(crate.name):
+                # a helper shared by several audited functions (a common `-> !` failure routine): each of them has the site
+                owners_ = sorted(common.known_owners(crate, owner))
+                if len(owners_) > 1 and all(o_ in known_fns(crate.name) for o_ in owners_):
+                    for o_ in owners_:
+                        by.setdefault((cname, o_, cons), []).append(t)
+                        by_body.setdefault((cname, o_, cons), []).append((o_, cons, t, body))
+                    continue
+            owner = o1
         by.setdefault((cname, owner, cons), []).append(t)
         by_body.setdefault((cname, owner, cons), []).append((owner, cons, t, body))
     n = 0
@@ -320,6 +400,12 @@ def audit(cfg, crate, cname, rep):
         n += len(ts)
         ent = AUDIT.get(key)
         k = "%s|%s|%s|%s" % (cfg, key[0], key[1], key[2])
+        if ent is None and key[2] == "assert:Overflow(Add)" and all(len_plus_len(crate, bn) for bn in sorted({t_[3] for t_ in by_body.get(key, [])})):
+            rep.ob("C10.audit", k + "|len-plus-len", True, "overflow check of `<buffer>.len() + <buffer>.len()` (+ small literals): two in-memory buffers are together shorter than usize::MAX")
+            continue
+        if ent is None and key[2] == "assert:BoundsCheck" and all(literal_array_index(crate, bn) for bn in sorted({t_[3] for t_ in by_body.get(key, [])})):
+            rep.ob("C10.audit", k + "|literal-array-index", True, "every index expression of the function that is not otherwise audited is a literal below the length of a fixed-size array")
+            continue
         if ent is None and key[2] == "assert:Overflow(Mul)" and all(len_times_small(crate, bn, 1) for bn in sorted({t_[3] for t_ in by_body.get(key, [])})):
             rep.ob("C10.audit", k + "|len-times-constant", True, "overflow check of `<buffer>.len() * c` with c <= 8: an in-memory buffer is far shorter than usize::MAX / 8")
             continue
